@@ -3,7 +3,7 @@
 From Coq.Strings Require Import Byte String.
 From Coq Require Import List Arith NArith Bool Lia.
 Import ListNotations.
-From V Require Import lib.Bytes model.Rpc.
+From V Require Import lib.Bytes model.Rpc spec.RpcWire.
 
 (* ====================================================================================== *)
 (*  Part 1.  framing                                                                      *)
@@ -101,7 +101,7 @@ Qed.
 (* trimming  c :: m ++ [d] ++ CRLF  where c and d are untouched bytes *)
 Lemma trim_line c m d : nsp c -> nsp d -> trim ((c :: m ++ [d]) ++ crlf) = c :: m ++ [d].
 Proof.
-  intros Hc Hd. unfold trim. rewrite <- app_comm_cons. rewrite trim_l_nsp by exact Hc.
+  intros Hc Hd. unfold trim, rev'. rewrite <- !rev_alt. rewrite <- app_comm_cons. rewrite trim_l_nsp by exact Hc.
   change (c :: (m ++ [d]) ++ crlf) with (((c :: m) ++ [d]) ++ crlf).
   rewrite !rev_app_distr. change (rev crlf) with [x0a; x0d]. change (rev [d]) with [d].
   cbn [app].
@@ -154,7 +154,7 @@ Proof.
   destruct D as [|d0 D']; [congruence|].
   inversion Dp as [|? ? P0 _]; subst. destruct P0 as [Dg [Ds _]].
   assert (Tv : trim (x20 :: d0 :: D') = d0 :: D').
-  { unfold trim. assert (E : forall X, trim_l (x20 :: X) = trim_l X) by reflexivity. rewrite E.
+  { unfold trim, rev'. rewrite <- !rev_alt. assert (E : forall X, trim_l (x20 :: X) = trim_l X) by reflexivity. rewrite E.
     rewrite trim_l_nsp by exact Ds. rewrite DY. rewrite rev_app_distr. change (rev [dig k]) with [dig k].
     cbn [app]. rewrite trim_lr_nsp by exact K3.
     change (dig k :: rev Y) with (rev [dig k] ++ rev Y). rewrite <- rev_app_distr, rev_involutive. reflexivity. }
@@ -370,18 +370,45 @@ Proof.
   - rewrite H. reflexivity.
 Qed.
 
+(* ---------- a frame cut short: the reader waits, whatever the cut ---------- *)
+Lemma frame_cut_needs_more p k : payload_ok p -> (k < length (frame p))%nat ->
+  read_frame (firstn k (frame p)) = RNeedMore.
+Proof.
+  intros OK Hk.
+  pose proof (read_frame_stable (firstn k (frame p)) (skipn k (frame p))) as ST.
+  rewrite firstn_skipn in ST.
+  pose proof (frames_roundtrip1 p [] OK) as RT. rewrite app_nil_r in RT.
+  pose proof (read_frame_total (firstn k (frame p))) as TT.
+  assert (NE : skipn k (frame p) <> []).
+  { intros Z. apply (f_equal (@length byte)) in Z. rewrite skipn_length in Z. cbn [length] in Z. lia. }
+  destruct (read_frame (firstn k (frame p))) as [q rest| |e|]; [| reflexivity | |destruct TT].
+  - rewrite RT in ST. injection ST as E1 E2. symmetry in E2. apply app_eq_nil in E2. destruct E2 as [_ E2]. destruct (NE E2).
+  - rewrite RT in ST. discriminate ST.
+Qed.
+
+(* complete frames followed by bytes on which the reader waits *)
+Lemma read_stream_frames_then msgs X : Forall payload_ok msgs -> read_frame X = RNeedMore ->
+  read_stream (concat (map frame msgs) ++ X) = (msgs, match X with [] => EndEof | _ => EndTrunc end).
+Proof.
+  intros OK NM. unfold read_stream. pose proof (frames_len msgs) as LN.
+  rewrite read_all_frames by (try assumption; rewrite app_length; lia).
+  destruct (S (length (concat (map frame msgs) ++ X)) - length msgs)%nat eqn:E; [rewrite app_length in E; lia|].
+  cbn [read_all]. rewrite NM. rewrite app_nil_r. reflexivity.
+Qed.
+
 End Framing.
 
 (* ====================================================================================== *)
 (*  Part 2.  the connection: invariants of every reachable state                          *)
 (* ====================================================================================== *)
 Section Conn.
+Opaque frame_header.
 
 Definition holds (p : pc) : bool := is_pc p PLocked || is_pc p PHeader || is_pc p PBody.
 Definition reg (p : pc) : bool := is_pc p PReady || holds p || is_pc p PWait || is_pc p PSel.
 Definition has_id (th : thread) : bool := is_call th && negb (is_pc (t_pc th) PStart).
 Definition call_result (o : option result) : bool :=
-  match o with Some (Got _) | Some Cancelled | Some WriteFailed => true | _ => false end.
+  match o with Some (Got _) | Some Cancelled | Some WriteFailed | Some TransportErr => true | _ => false end.
 
 Record inv (s : state) : Prop := {
   i_wire : wire s = concat (map frame (sent s)) ++ partial s;
@@ -391,6 +418,7 @@ Record inv (s : state) : Prop := {
   i_ret : forall t, match t_ret (threads s t) with
                     | Some (Got r) => fst r = t_id (threads s t) /\ has_id (threads s t) = true
                     | Some Cancelled | Some WriteFailed => t_ctx (threads s t) = true
+                    | Some TransportErr => down s = true
                     | _ => True end;
   i_pend : forall id t, In (id, t) (pending s) <->
              (is_call (threads s t) && reg (t_pc (threads s t)) = true /\ t_id (threads s t) = id);
@@ -456,7 +484,8 @@ Ltac inv_step H :=
   end;
   inversion H; subst; clear H; split_hyps.
 
-Ltac proj := cbn [threads pending lock wire sent next_id run with_threads
+Ltac proj := unfold failed in *;
+             cbn [threads pending lock wire sent next_id run down torn senders with_threads
                   t_kind t_pc t_id t_payload t_chan t_ctx t_ret set_pc] in *.
 
 Lemma upd_same f t v : upd f t v t = v.
@@ -480,12 +509,15 @@ Ltac rw_facts :=
   end.
 Ltac norm := unfold has_id, is_call in *; proj; rw_facts; cbn [is_pc holds reg has_id negb andb orb call_result fst snd] in *.
 
+Ltac split_down := match goal with |- context [down ?x] => let DN := fresh "DN" in destruct (down x) eqn:DN end.
+
 Lemma step_wire s a s' : inv s -> step s a = Some s' -> wire s' = concat (map frame (sent s')) ++ partial s'.
 Proof.
   intros I H. pose proof (i_wire s I) as W. pose proof (i_lock s I) as L. clear I.
   destruct a; inv_step H;
   try (assert (LK : lock s = Some t) by (apply L; norm; reflexivity)); clear L;
   unfold partial in *; norm; rewrite ?upd_same; norm;
+  split_down; cbn [negb] in *; try discriminate; try assumption;
   try (destruct (lock s) as [t0|]; [cases_t t0 t|]; norm);
   try (destruct (lock s) as [t0|]; [cases_t t0 n|]; norm);
   rewrite ?map_app, ?concat_app; cbn [map concat]; rewrite ?app_nil_r in *;
@@ -541,6 +573,7 @@ Lemma step_ret s a s' : inv s -> step s a = Some s' ->
   forall x, match t_ret (threads s' x) with
             | Some (Got r) => fst r = t_id (threads s' x) /\ has_id (threads s' x) = true
             | Some Cancelled | Some WriteFailed => t_ctx (threads s' x) = true
+            | Some TransportErr => down s' = true
             | _ => True end.
 Proof.
   intros I H x. pose proof (i_ret s I x) as R. pose proof (i_chan s I) as C. pose proof (i_done s I x) as D. clear I.
@@ -550,7 +583,8 @@ Proof.
   try discriminate;
   try (destruct (t_ret (threads s t)) as [[]|]; try exact I; try reflexivity; try assumption;
        destruct R; discriminate);
-  try (destruct (C _ _ E0) as [A B]; rewrite ?K, ?E in B; cbn in B; split; [exact A|first [reflexivity|discriminate B]]).
+  try (destruct (C _ _ E0) as [A B]; rewrite ?K, ?E in B; cbn in B; split; [exact A|first [reflexivity|discriminate B]]);
+  try (destruct (t_ret (threads s x)) as [[]|]; try exact I; try reflexivity; assumption).
 Qed.
 
 Lemma step_done s a s' : inv s -> step s a = Some s' ->
@@ -689,31 +723,145 @@ Proof.
   eapply IH; [eapply from_wire_step; eassumption|assumption|exact H].
 Qed.
 
-(* ---------- only payloads of the program reach the wire ---------- *)
+Lemma NoDup_app_one {A} (l : list A) (x : A) : NoDup l -> ~ In x l -> NoDup (l ++ [x]).
+Proof.
+  induction l as [|a l IH]; intros N Hx; cbn [app]; [constructor; [intros []|constructor]|].
+  inversion N; subst. constructor.
+  - rewrite in_app_iff. cbn [In]. intros [Q|[Q|[]]]; [contradiction|subst; apply Hx; left; reflexivity].
+  - apply IH; [assumption|]. intros Q. apply Hx. right. exact Q.
+Qed.
+
+(* ---------- only payloads of the program reach the wire; what a failed Write leaves is a proper
+   prefix of one frame ---------- *)
 Definition payloads_ok (Q : bytes -> Prop) (s : state) : Prop :=
-  (forall t, t_pc (threads s t) <> PDone -> Q (t_payload (threads s t))) /\ Forall Q (sent s).
+  (forall t, t_pc (threads s t) <> PDone -> Q (t_payload (threads s t))) /\ Forall Q (sent s) /\
+  (down s = true -> exists p k, Q p /\ k < length (frame p) /\ torn s = firstn k (frame p)).
 
 Lemma payloads_init Q prog : Forall Q (map snd prog) -> payloads_ok Q (init prog).
 Proof.
-  intros H. split; [|constructor]. cbn [init threads]. intros t.
+  intros H. split; [|split; [constructor|discriminate]]. cbn [init threads]. intros t.
   revert t. induction prog as [|[k p] prog IH]; intros t; cbn [map nth].
   - destruct t; cbn; congruence.
   - inversion H; subst. destruct t as [|t]; [intros _; cbn; assumption|apply IH; assumption].
 Qed.
 
+Lemma torn_header p k : k < length (frame_header p) ->
+  k < length (frame p) /\ firstn k (frame_header p) = firstn k (frame p).
+Proof.
+  intros H. unfold frame. rewrite app_length. split; [lia|].
+  rewrite firstn_app. replace (k - length (frame_header p)) with 0 by lia. cbn [firstn]. rewrite app_nil_r. reflexivity.
+Qed.
+Lemma torn_body p k : k < length p ->
+  length (frame_header p) + k < length (frame p) /\
+  frame_header p ++ firstn k p = firstn (length (frame_header p) + k) (frame p).
+Proof.
+  intros H. unfold frame. rewrite app_length. split; [lia|]. rewrite firstn_app_2. reflexivity.
+Qed.
+
 Lemma payloads_step Q s a s' : payloads_ok Q s -> step s a = Some s' -> payloads_ok Q s'.
 Proof.
-  intros [P F] H. unfold payloads_ok.
+  intros [P [F T]] H. unfold payloads_ok.
   destruct a; inv_step H; (split; [intros x; proj; try (cases_t x t); try (cases_t x n); norm;
      try (destruct (t_kind (threads s t)) eqn:K); norm; intros Q0; try congruence;
-     try (apply P; congruence)|norm; try assumption]).
-  apply Forall_app. split; [assumption|]. constructor; [apply P; congruence|constructor].
+     try (apply P; congruence)|split; [norm; try assumption|norm; try assumption]]).
+  - apply Forall_app. split; [assumption|]. constructor; [apply P; congruence|constructor].
+  - intros _. destruct (down s) eqn:DN; [apply T; reflexivity|].
+    match goal with HL : (_ <? _) = true |- _ => apply Nat.ltb_lt in HL; destruct (torn_header _ _ HL) as [A B] end.
+    exists (t_payload (threads s t)), k. split; [apply P; congruence|split; assumption].
+  - intros _. destruct (down s) eqn:DN; [apply T; reflexivity|].
+    match goal with HL : (_ <? _) = true |- _ => apply Nat.ltb_lt in HL; destruct (torn_body _ _ HL) as [A B] end.
+    exists (t_payload (threads s t)), (length (frame_header (t_payload (threads s t))) + k).
+    split; [apply P; congruence|split; assumption].
 Qed.
 
 Lemma payloads_exec Q : forall tr s s', payloads_ok Q s -> exec s tr = Some s' -> payloads_ok Q s'.
 Proof.
   induction tr as [|a r IH]; intros s s' I H; cbn [exec] in H; [inversion H; subst; exact I|].
   destruct (step s a) as [s1|] eqn:S; [|discriminate]. eapply IH; [eapply payloads_step; eassumption|exact H].
+Qed.
+
+(* ---------- which writes are on the wire: exactly those whose c.write returned nil ---------- *)
+Definition early (p : pc) : bool := negb (is_pc p PSel || is_pc p PDone).
+
+Record sinv (s : state) : Prop := {
+  s_early : forall t, early (t_pc (threads s t)) = true -> t_ret (threads s t) = None;
+  s_wrote : forall t, In t (senders s) <-> wrote (threads s t) = true;
+  s_nodup : NoDup (senders s);
+  s_sent : sent s = map (fun t => t_payload (threads s t)) (senders s)
+}.
+
+Lemma sinv_init prog : sinv (init prog).
+Proof.
+  assert (T : forall t, let th := nth t (map mk_thread prog) dead in t_ret th = None /\ wrote th = false).
+  { intros t. destruct (nth_mk prog t) as [->|[[k p] ->]]; [split; reflexivity|destruct k; split; reflexivity]. }
+  cbv zeta in T. constructor; cbn [init threads senders sent].
+  - intros t _. apply T.
+  - intros t. destruct (T t) as [_ W]. rewrite W. split; [intros []|discriminate].
+  - constructor.
+  - reflexivity.
+Qed.
+
+Lemma step_payload s a s' : step s a = Some s' -> forall x, t_payload (threads s' x) = t_payload (threads s x).
+Proof.
+  intros H x. destruct a; inv_step H; norm; try (cases_t x t); try (cases_t x n); norm;
+    try (destruct (t_kind (threads s t)) eqn:K); norm; reflexivity.
+Qed.
+
+Lemma step_early s a s' : sinv s -> step s a = Some s' ->
+  forall x, early (t_pc (threads s' x)) = true -> t_ret (threads s' x) = None.
+Proof.
+  intros I H x. pose proof (s_early s I x) as D. clear I. unfold early in *.
+  destruct a; inv_step H;
+  norm; try (cases_t x t); try (cases_t x n); norm; try assumption;
+  try (destruct (t_kind (threads s t)) eqn:K); norm; try assumption;
+  try discriminate; try (intros; discriminate); try (intros; apply D; reflexivity).
+Qed.
+
+Lemma step_wrote s a s' : sinv s -> step s a = Some s' ->
+  forall x, In x (senders s') <-> wrote (threads s' x) = true.
+Proof.
+  intros I H x. pose proof (s_wrote s I x) as W. pose proof (s_early s I) as D. clear I. unfold wrote, early in *.
+  destruct a; inv_step H;
+  norm; try (cases_t x t); try (cases_t x n); norm; try assumption;
+  try (specialize (D t); rewrite ?H, ?H0, ?E in D; cbn in D; specialize (D eq_refl));
+  try (destruct (t_kind (threads s t)) eqn:K); norm; rw_facts; cbn [orb] in *; try assumption;
+  try (rewrite D in W; cbn in W; exact W);
+  try (rewrite in_app_iff; cbn [In]; tauto);
+  try (rewrite in_app_iff; cbn [In]; split; [intros [Q|[Q|[]]]; [apply W; exact Q|congruence]|intros Q; left; apply W; exact Q]).
+Qed.
+
+Lemma step_nodup s a s' : sinv s -> step s a = Some s' -> NoDup (senders s').
+Proof.
+  intros I H. pose proof (s_nodup s I) as N. pose proof (s_wrote s I) as W. pose proof (s_early s I) as D. clear I.
+  destruct a; inv_step H; norm; try assumption.
+  apply NoDup_app_one; [exact N|]. intros Q. apply W in Q. unfold wrote in Q. rewrite H in Q.
+  specialize (D t). unfold early in D. rewrite H in D. rewrite (D eq_refl) in Q. discriminate Q.
+Qed.
+
+Lemma step_sent s a s' : sinv s -> step s a = Some s' ->
+  sent s' = map (fun t => t_payload (threads s' t)) (senders s').
+Proof.
+  intros I H. pose proof (s_sent s I) as N. clear I.
+  rewrite (map_ext _ (fun t => t_payload (threads s t)) (step_payload s a s' H)).
+  destruct a; inv_step H; norm; try assumption.
+  rewrite map_app, N. reflexivity.
+Qed.
+
+Theorem step_sinv s a s' : sinv s -> step s a = Some s' -> sinv s'.
+Proof.
+  intros I H. constructor.
+  - eapply step_early; eassumption.
+  - eapply step_wrote; eassumption.
+  - eapply step_nodup; eassumption.
+  - eapply step_sent; eassumption.
+Qed.
+
+Theorem reachable_sinv prog tr : forall s, exec (init prog) tr = Some s -> sinv s.
+Proof.
+  assert (G : forall tr s s', sinv s -> exec s tr = Some s' -> sinv s').
+  { induction tr0 as [|a r IH]; intros s s' I H; cbn [exec] in H; [inversion H; subst; exact I|].
+    destruct (step s a) as [s1|] eqn:S; [|discriminate]. eapply IH; [eapply step_sinv; eassumption|exact H]. }
+  intros s H. eapply G; [apply sinv_init|exact H].
 Qed.
 End Conn.
 
@@ -724,39 +872,61 @@ End Conn.
 Theorem no_interleave prog tr s : exec (init prog) tr = Some s ->
   wire s = concat (map frame (sent s)) ++ partial s /\
   (partial s = [] \/
-   exists t, lock s = Some t /\ t_pc (threads s t) = PHeader /\
-             partial s = frame_header (t_payload (threads s t))).
+   (down s = false /\ exists t, lock s = Some t /\ t_pc (threads s t) = PHeader /\
+             partial s = frame_header (t_payload (threads s t))) \/
+   (down s = true /\ exists p k, k < length (frame p) /\ partial s = firstn k (frame p))).
 Proof.
   intros H. pose proof (reachable_inv prog tr s H) as I. split; [apply (i_wire s I)|].
-  unfold partial. destruct (lock s) as [t|]; [|left; reflexivity].
-  destruct (is_pc (t_pc (threads s t)) PHeader) eqn:E; [|left; reflexivity].
-  right. exists t. split; [reflexivity|]. split; [apply is_pc_eq; exact E|reflexivity].
+  destruct (payloads_exec (fun _ => True) tr _ _ (payloads_init _ prog ltac:(apply Forall_forall; intros; exact Logic.I)) H)
+    as [_ [_ PT]].
+  unfold partial. destruct (down s) eqn:DN.
+  - right. right. split; [reflexivity|]. destruct (PT eq_refl) as [p [k [_ [A B]]]]. exists p, k. split; assumption.
+  - destruct (lock s) as [t|]; [|left; reflexivity].
+    destruct (is_pc (t_pc (threads s t)) PHeader) eqn:E; [|left; reflexivity].
+    right. left. split; [reflexivity|]. exists t. split; [reflexivity|]. split; [apply is_pc_eq; exact E|reflexivity].
 Qed.
+
+Lemma header_nonempty p : frame_header p <> [].
+Proof. unfold frame_header, hdr_name. cbn [bs list_byte_of_string app]. discriminate. Qed.
 
 Theorem peer_reads_sent prog tr s : Forall payload_ok (map snd prog) -> exec (init prog) tr = Some s ->
   read_stream (wire s) = (sent s, match partial s with [] => EndEof | _ => EndTrunc end).
 Proof.
-  intros HP H. destruct (no_interleave prog tr s H) as [W C].
-  destruct (payloads_exec payload_ok tr _ _ (payloads_init payload_ok prog HP) H) as [PT PS].
-  destruct C as [C|[t [L [Pc C]]]].
-  - rewrite C in *. rewrite app_nil_r in W. rewrite W. apply frames_roundtrip. exact PS.
-  - assert (OK : payload_ok (t_payload (threads s t))) by (apply PT; congruence).
-    rewrite C in *. rewrite W. unfold read_stream.
-    pose proof (frames_len (sent s)) as LN.
-    rewrite read_all_frames by (try assumption; rewrite app_length; lia).
-    destruct (S (length (concat (map frame (sent s)) ++ frame_header (t_payload (threads s t)))) - length (sent s)) eqn:E;
-      [rewrite app_length in E; lia|].
-    cbn [read_all]. rewrite read_frame_header_only by exact OK. rewrite app_nil_r.
-    pose proof (frame_nonempty (t_payload (threads s t))) as NE. unfold frame in NE. rewrite app_length in NE.
-    destruct (frame_header (t_payload (threads s t))) eqn:FH; [|reflexivity].
-    exfalso. clear -FH. unfold frame_header, hdr_name in FH. cbn [bs list_byte_of_string app] in FH. discriminate FH.
+  intros HP H. pose proof (reachable_inv prog tr s H) as I. pose proof (i_wire s I) as W.
+  destruct (payloads_exec payload_ok tr _ _ (payloads_init payload_ok prog HP) H) as [PT [PS PD]].
+  rewrite W. apply read_stream_frames_then; [exact PS|].
+  unfold partial. destruct (down s) eqn:DN.
+  - destruct (PD eq_refl) as [p [k [OK [A B]]]]. rewrite B. apply frame_cut_needs_more; assumption.
+  - destruct (lock s) as [t|]; [|reflexivity].
+    destruct (is_pc (t_pc (threads s t)) PHeader) eqn:E; [|reflexivity].
+    apply read_frame_header_only. apply PT. apply is_pc_eq in E. congruence.
+Qed.
+
+Lemma msgs_eqb_refl l : msgs_eqb l l = true.
+Proof. induction l as [|x l IH]; cbn [msgs_eqb]; [reflexivity|]. rewrite bytes_eqb_refl, IH. reflexivity. Qed.
+
+(* whatever Writes succeed, fail or are cancelled, at whatever moment: the frames on the connection are
+   those of exactly the writes that returned nil, each once, in lock order; between writes the bytes
+   satisfy the wire specification *)
+Theorem writes_on_wire prog tr s : Forall payload_ok (map snd prog) -> exec (init prog) tr = Some s ->
+  sent s = map (fun t => t_payload (threads s t)) (senders s) /\ NoDup (senders s) /\
+  (forall t, In t (senders s) <-> wrote (threads s t) = true) /\
+  (lock s = None -> wire_spec (sent s) (down s) (wire s) = true) /\
+  (lock s = None -> down s = false -> wire s = concat (map frame (sent s))).
+Proof.
+  intros HP H. pose proof (reachable_sinv prog tr s H) as SI. pose proof (reachable_inv prog tr s H) as I.
+  split; [apply (s_sent s SI)|]. split; [apply (s_nodup s SI)|]. split; [apply (s_wrote s SI)|]. split.
+  - intros L. unfold wire_spec. rewrite (peer_reads_sent prog tr s HP H). rewrite msgs_eqb_refl. cbn [andb].
+    unfold partial. rewrite L. destruct (down s); [destruct (torn s); reflexivity|reflexivity].
+  - intros L D. rewrite (i_wire s I). unfold partial. rewrite L, D. apply app_nil_r.
 Qed.
 
 Theorem call_gets_own_response prog tr s : exec (init prog) tr = Some s ->
   (forall t, is_call (threads s t) = true -> t_pc (threads s t) = PDone ->
      (exists r, t_ret (threads s t) = Some (Got r) /\ fst r = t_id (threads s t) /\ In (ARead r) tr)
      \/ (t_ret (threads s t) = Some Cancelled /\ t_ctx (threads s t) = true)
-     \/ (t_ret (threads s t) = Some WriteFailed /\ t_ctx (threads s t) = true))
+     \/ (t_ret (threads s t) = Some WriteFailed /\ t_ctx (threads s t) = true)
+     \/ (t_ret (threads s t) = Some TransportErr /\ down s = true))
   /\ (forall t1 t2, is_call (threads s t1) = true -> is_call (threads s t2) = true ->
         t_pc (threads s t1) = PDone -> t_pc (threads s t2) = PDone ->
         t_id (threads s t1) = t_id (threads s t2) -> t1 = t2).
@@ -769,15 +939,16 @@ Proof.
     destruct FW as [_ [_ FW]].
     pose proof (i_done s I t C) as D. rewrite P in D. specialize (D eq_refl).
     pose proof (i_ret s I t) as R.
-    destruct (t_ret (threads s t)) as [[r| | |]|] eqn:E; try discriminate D.
+    destruct (t_ret (threads s t)) as [[r| | | |]|] eqn:E; try discriminate D.
     + left. exists r. split; [reflexivity|]. split; [apply R|apply (FW t r E)].
     + right. left. split; [reflexivity|exact R].
-    + right. right. split; [reflexivity|exact R].
+    + right. right. left. split; [reflexivity|exact R].
+    + right. right. right. split; [reflexivity|exact R].
   - intros t1 t2 C1 C2 P1 P2 E. apply (i_uniq s I); try exact E; unfold has_id; rewrite ?C1, ?C2, ?P1, ?P2; reflexivity.
 Qed.
 
 Theorem pending_empty_at_quiescence prog tr s : exec (init prog) tr = Some s -> quiescent s ->
-  pending s = [] /\ lock s = None /\ wire s = concat (map frame (sent s)).
+  pending s = [] /\ lock s = None /\ (down s = false -> wire s = concat (map frame (sent s))).
 Proof.
   intros H Q. pose proof (reachable_inv prog tr s H) as I.
   assert (L : lock s = None).
@@ -786,5 +957,5 @@ Proof.
   - destruct (pending s) as [|[id t] l] eqn:E; [reflexivity|].
     assert (X : In (id, t) (pending s)) by (rewrite E; left; reflexivity).
     apply (i_pend s I) in X. destruct X as [X _]. rewrite (Q t) in X. apply andb_prop in X as [_ X]. discriminate X.
-  - rewrite (i_wire s I). unfold partial. rewrite L. apply app_nil_r.
+  - intros D. rewrite (i_wire s I). unfold partial. rewrite L, D. apply app_nil_r.
 Qed.
